@@ -172,6 +172,14 @@ def lean_build_and_audit(prop, log, tier="quick"):
             p2 = subprocess.run(["lake", "build", "pgfdr_model"], cwd=LEAN, capture_output=True, text=True, timeout=3000)
             log.write(p2.stdout[-3000:] + p2.stderr[-3000:])
             res["driver_ok"] = p2.returncode == 0 and DRIVER.exists()
+            if res["driver_ok"]:
+                import shutil
+
+                d = VERIF / "logs" / "driver"
+                d.mkdir(parents=True, exist_ok=True)
+                priv = d / f"pgfdr_model.{os.getpid()}"
+                shutil.copy2(DRIVER, priv)
+                os.environ["PGFDR_DRIVER_BIN"] = str(priv)
         if not res["driver_ok"]:
             errs = re.findall(r"^error: (.*)$", p2.stdout + p2.stderr, flags=re.M)
             res["broken"].append("lake build pgfdr_model failed: " + "; ".join(errs[:6])[:1500])
@@ -228,7 +236,10 @@ class Model:
     def __init__(self):
         # PGFDR_DRIVER_CMD (development only): an alternative driver command run in lean/
         self.cmd = os.environ.get("PGFDR_DRIVER_CMD")
-        self.ok = bool(self.cmd) or DRIVER.exists()
+        # a check uses a private copy of the native driver (made under the build lock), so that a concurrent
+        # relink by another check cannot pull the binary away while workers are running
+        self.bin = os.environ.get("PGFDR_DRIVER_BIN") or str(DRIVER)
+        self.ok = bool(self.cmd) or Path(self.bin).exists()
 
     def ask(self, reqs):
         if not reqs:
@@ -239,7 +250,7 @@ class Model:
         if self.cmd:
             p = subprocess.run(self.cmd, shell=True, cwd=LEAN, input=data, capture_output=True, text=True, timeout=3000)
         else:
-            p = subprocess.run([str(DRIVER)], input=data, capture_output=True, text=True, timeout=3000)
+            p = subprocess.run([self.bin], input=data, capture_output=True, text=True, timeout=3000)
         lines = p.stdout.splitlines()
         outs = []
         for i in range(len(reqs)):
@@ -706,6 +717,10 @@ def run_check(prop, tier="quick", seed=0, replay=None):
             alt.mkdir(parents=True, exist_ok=True)
             (alt / f"{prop}.json").write_text(json.dumps(ev, indent=1, default=str))
     log.close()
+    priv = os.environ.get("PGFDR_DRIVER_BIN")
+    if priv and priv.startswith(str(VERIF / "logs" / "driver")):
+        with contextlib.suppress(OSError):
+            os.unlink(priv)
     for l in known_lines:
         print(l)
     for path, nf in violations:
